@@ -24,7 +24,7 @@ CLASSES = ["JSONDict", "JSONList", "BufferedJSONDict", "BufferedJSONList", "Memo
            "MemoryBufferedJSONList", "JSONAttrDict"]
 PROGRAMS = {"quick": {"clean": 5, "known": 4}, "thorough": {"clean": 120, "known": 80}}
 SHARD_TIMEOUT = {"quick": 600, "thorough": 5400}
-BUDGET = {"quick": 30, "thorough": 1500}
+BUDGET = {"quick": 30, "thorough": 600}
 
 
 def plan(tier, seed):
@@ -46,7 +46,7 @@ def plan(tier, seed):
         own = [(c, k) for c in CLASSES for k in ("threads", "mt_off")]
     for cname, kind in own:
         specs.append({"cls": cname, "stratum": "clean", "own_obj": kind, "seed": seed, "tier": tier,
-                      "start": 10**6, "count": 1 if tier == "quick" else 15})
+                      "start": 10**6, "count": 1 if tier == "quick" else 4})
     return specs
 
 
